@@ -827,3 +827,76 @@ def c17_mutating_callbacks(tier="quick", seed=0):
                 bad = bad or (src, got, "no host exception")
     return [ob("C17.bounded.mutating-callbacks", bad is None, "B", f"{n} (method, array, action, thisArg) cases" if bad is None else f"{bad[0][:260]} -> {str(bad[1])[:160]}, expected {str(bad[2])[:160]}",
                witness=(bad[0] if bad else None), confirmed=True if bad else None, domain=n)]
+
+
+# ---- bounded: what is not callable is refused as a callback (also when there is nothing to iterate) ------------------------
+@groups.group(id="C17.bounded.callback-arguments", prop="C17", kind="B", functions=["microjs.vm:VM._make_array_method"])
+def c17_callback_arguments(tier="quick", seed=0):
+    """23.1.3: every iteration method throws a TypeError when its callback is not callable (IsCallable is checked before the
+    first element is visited, so also on an empty array and whatever else is passed); sort accepts undefined or a callable;
+    callable values of every kind (function, arrow, bound, built-in, host) are accepted"""
+    from microjs import Context
+    methods = ["map", "forEach", "filter", "some", "every", "find", "findIndex", "reduce", "reduceRight"]
+    not_callable = ["", "undefined", "null", "0", "3", "'f'", "({})", "[]", "true", "/x/"]
+    callable_ = ["function (x) { return x }", "(x) => x", "(function (x) { return x }).bind(null)", "Math.abs", "String", "hostfn", "Object.keys"]
+    out = []
+    for m in methods:
+        bad = None
+        n = 0
+        for recv in ("[]", "[1, 2]", "[undefined]", "new Array(3)"):
+            for a in not_callable:
+                for extra in ("", ", 5"):
+                    if a == "" and extra:
+                        continue
+                    src = f"var r; try {{ {recv}.{m}({a}{extra}); r = 'accepted' }} catch (e) {{ r = e.name }} r"
+                    n += 1
+                    c = Context(time_limit=10)
+                    try:
+                        got = c.eval(src)
+                    except BaseException as e:  # noqa
+                        got = f"!{type(e).__name__}: {e}"[:100]
+                    if got != "TypeError" and bad is None:
+                        bad = (src, f"{got!r}, ECMAScript 'TypeError'")
+            for a in callable_:
+                if recv == "[]" and m in ("reduce", "reduceRight"):
+                    continue
+                src = f"var r; try {{ {recv}.{m}({a}); r = 'accepted' }} catch (e) {{ r = e.name }} r"
+                n += 1
+                c = Context(time_limit=10)
+                c.set("hostfn", lambda *a_: 1)
+                try:
+                    got = c.eval(src)
+                except BaseException as e:  # noqa
+                    got = f"!{type(e).__name__}: {e}"[:100]
+                if got != "accepted" and bad is None:
+                    bad = (src, f"{got!r}, ECMAScript 'accepted'")
+        out.append(ob(f"C17.bounded.callback-arguments.{m}", bad is None, "B", f"{n} (receiver, callback value) cases" if bad is None else f"{bad[0]}: {bad[1]}",
+                      witness=(bad[0] if bad else None), confirmed=True if bad else None, domain=n))
+    bad = None
+    n = 0
+    for recv in ("[]", "[2, 1]"):
+        for a, want in [("", "accepted"), ("undefined", "accepted"), ("function (a, b) { return a - b }", "accepted"), ("null", "TypeError"), ("0", "TypeError"), ("5", "TypeError"), ("'f'", "TypeError"), ("({})", "TypeError"), ("[]", "TypeError"), ("true", "TypeError")]:
+            src = f"var r; try {{ {recv}.sort({a}); r = 'accepted' }} catch (e) {{ r = e.name }} r"
+            n += 1
+            try:
+                got = Context(time_limit=10).eval(src)
+            except BaseException as e:  # noqa
+                got = f"!{type(e).__name__}: {e}"[:100]
+            if got != want and bad is None:
+                bad = (src, f"{got!r}, ECMAScript {want!r}")
+    out.append(ob("C17.bounded.callback-arguments.sort", bad is None, "B", f"{n} comparator values" if bad is None else f"{bad[0]}: {bad[1]}", witness=(bad[0] if bad else None), confirmed=True if bad else None, domain=n))
+    return out
+
+
+# ---- fixed probes (regressions of repaired defects) -------------------------------------------------------------------------
+PROBES_C17 = [
+    ("set-from-overlapping-view", "var a = new Uint8Array([1, 2, 3, 4]); a.set(a.subarray(0, 2), 1); var b = new Uint8Array([1, 2, 3, 4]); b.set(b.subarray(1, 3), 0); a.join() + '|' + b.join()", "1,1,2,4|2,3,3,4"),
+    ("set-from-other-type-same-buffer", "var buf = new ArrayBuffer(4); var a = new Uint8Array(buf), w = new Uint16Array(buf); a.set([1, 2, 3, 4]); a.set(new Uint8Array(buf, 0, 2), 2); a.join() + '|' + w[1]", "1,2,1,2|513"),
+    ("subarray-undefined-end", "[new Uint8Array([1, 2, 3]).subarray(1, undefined).length, new Uint8Array([1, 2, 3]).subarray(undefined, 2).length, new Uint8Array([1, 2, 3]).subarray().length].join()", "2,2,3"),
+    ("every-typed-array-has-a-buffer", "var a = new Uint8Array([1, 2, 3, 4]); var b = new Uint16Array(a.buffer); b[0] = 0x0505; [typeof new Uint8Array(4).buffer, a.buffer === a.buffer, a.buffer.byteLength, a.join()].join('|')", "object|true|4|5,5,3,4"),
+    ("buffer-then-write-visible", "var a = new Float64Array([1.5, 2]); var b = a.buffer; a[0] = 3.25; new Float64Array(b)[0]", 3.25),
+    ("array-of-boolean", "[new Array(true).length, Array(false)[0], Array(false).length, Array(3).length, new Array('3')[0]].join()", "1,false,1,3,3"),
+    ("elision-is-an-element", "[[1,,2].length, [,].length, [1,,].length, String([1,,2][1])].join()", "3,1,2,undefined"),
+    ("forof-live", "var a = [1, 2], n = 0; for (var x of a) { if (n < 3) a.push(9); n++ } n", 5),
+]
+groups.register_probes("C17", PROBES_C17)
